@@ -254,3 +254,40 @@ Definition own_step (cp id : string) (s : estate) (e : ev) (x : ans) : option es
   | EBatchDeliver _ _ => None
   | _ => Some s
   end.
+
+(* ---------------- C06: Accept updates following only for a verified stored Follow; Undo examines the undone activities ---------------- *)
+Record astate := { a_me : option string;    (* ActorForInbox *)
+                   a_got : option json }.   (* the stored value Get last returned *)
+Definition a0 : astate := {| a_me := None; a_got := None |}.
+
+(* the stored Follow was made by this actor and names every accepting actor as its object *)
+Definition follow_verified (me : string) (t : json) (accepting : list json) : bool :=
+  is_or_extends (type_name t) "Follow" &&
+  match (match elems "actor" t with None => Ok false | Some l => names_me "actor" me l end) with Ok true => true | _ => false end &&
+  match to_ids "actor" accepting, ids_of "object" t with
+  | Ok ids, Ok objs => forallb (fun i => mem i objs) ids
+  | _, _ => false
+  end.
+
+Definition acc_step (accepting : list json) (s : astate) (e : ev) (x : ans) : option astate :=
+  match e with
+  | EDb op args =>
+      if String.eqb op "ActorForInbox" then Some {| a_me := match x with AIri i => Some i | _ => None end; a_got := a_got s |}
+      else if String.eqb op "Get" then Some {| a_me := a_me s; a_got := match x with AJson j => Some j | _ => None end |}
+      else if String.eqb op "Update" then
+        match a_me s, a_got s with
+        | Some me, Some t => if follow_verified me t accepting then Some s else None
+        | _, _ => None
+        end
+      else if String.eqb op "Create" || String.eqb op "Delete" || String.eqb op "SetOutbox" then None
+      else Some s
+  | EBatchDeliver _ _ => None
+  | _ => Some s
+  end.
+
+(* the documents dereferenced and decoded so far, latest first *)
+Definition seen_step (s : list json) (e : ev) (x : ans) : option (list json) :=
+  match e, x with
+  | EDeref _, AJson j => match to_type j with Ok t => Some (t :: s) | _ => Some s end
+  | _, _ => Some s
+  end.
